@@ -1,1 +1,3 @@
 pub mod c12;
+pub mod c14;
+pub mod c17;
